@@ -81,15 +81,27 @@ func isErrCtor(name string) bool {
 // errCtor: error constructors return a non-nil error, except the wrappers,
 // which return nil for a nil argument (DESIGN 2.3: error wrapping is
 // abstracted to "some non-nil error").
-func (e *Engine) errCtor(st *State, fn *ssa.Function, args []*Val) *Val {
-	r := e.freshVal(st, "err", fn.Signature.Results().At(0).Type())
+func (e *Engine) errCtor(st *State, fn *ssa.Function, args []*Val, instr ssa.Instruction) *Val {
+	// one global non-nil constant per construction site: error identity is
+	// never observed except through nil-ness (A8), and a constant keeps
+	// callers usable as closed terms inside specifications.
+	key := fmt.Sprintf("errsite:%p", instr)
+	name, ok := e.errSites[key]
+	if !ok {
+		if e.errSites == nil {
+			e.errSites = map[string]string{}
+		}
+		name = e.freshName("err@" + fn.Name())
+		e.errSites[key] = name
+		e.addDecl(fmt.Sprintf("(declare-const %s Int)", name))
+		e.addDecl(fmt.Sprintf("(assert (> %s 0))", name))
+	}
+	rt := fn.Signature.Results().At(0).Type()
 	idx, _ := errCtorKind(fn.String())
 	if idx >= 0 && idx < len(args) {
-		st.assume(eq(eq(r.T, "0"), eq(args[idx].T, "0")))
-		return r
+		return &Val{T: ite(eq(args[idx].T, "0"), "0", name), Ty: rt}
 	}
-	st.assume(not(eq(r.T, "0")))
-	return r
+	return &Val{T: name, Ty: rt}
 }
 
 func init() {
